@@ -274,7 +274,8 @@ def gen_case(rng, backend: str, pattern: str, maxlen: int = 6) -> dict:
             schedule.extend(queues[c].pop(0))
     mode = "threads" if threads or rng.random() < 0.25 else "inline"
     schedule = add_child_runs(rng, wfs, schedule, mode)
-    return {"backend": backend, "pattern": pattern, "mode": mode, "workflows": wfs, "schedule": schedule}
+    objs = rng.choice(("fresh", "fresh", "kept", "kept", "same"))
+    return {"backend": backend, "pattern": pattern, "mode": mode, "objs": objs, "workflows": wfs, "schedule": schedule}
 
 
 def add_child_runs(rng, wfs: list[dict], schedule: list[list], mode: str) -> list[list]:
@@ -354,10 +355,15 @@ def probe_lines(backend: str, scratch: str) -> dict[str, int]:
     kinds = ["r", "t", "u", "x1"]
     case = {"backend": backend, "pattern": "probe", "mode": "threads", "workflows": [{"t": 0, "prog": k} for k in kinds],
             "schedule": [x for i in range(len(kinds)) for x in (["B", i, 0, i + 1], ["P", i, 10 ** 6], ["R", i], ["E", i, "ok"])]}
-    raw = run_impl(case, scratch, "probe")
-    if raw["errors"]:
-        raise CheckError(f"line probe failed: {raw['errors']}")
-    return {k: max(1, raw["line_counts"].get(i, [1])[0]) for i, k in enumerate(kinds)}
+    try:
+        raw = run_impl(case, scratch, "probe")
+        if raw["errors"]:
+            raise RuntimeError(str(raw["errors"]))
+        return {k: max(1, raw["line_counts"].get(i, [1])[0]) for i, k in enumerate(kinds)}
+    except CheckError:
+        raise
+    except Exception:  # noqa: BLE001 - a tree on which the probe fails is judged by the histories, with default counts
+        return {"r": 48, "t": 56, "u": 46, "x1": 28}
 
 
 def enumerate_preempt(backend: str, lines: dict[str, int], pairs: list[tuple[str, str]], stride: int = 1) -> list[dict]:
@@ -391,9 +397,12 @@ def enumerate_small(backend: str, maxlen: int) -> list[dict]:
             p = ",".join(prog)
             for cut in range(0, n + 1):
                 # retry after `cut` operations, then full replay in the same image
-                sch = [["B", 0, 0, 1]] + [["O", 0]] * cut + [["E", 0, "retry"]] + [["B", 1, 0, 1]] + [["O", 1]] * n + [["E", 1, "ok"]]
-                cases.append({"backend": backend, "pattern": "enum_retry", "mode": "inline",
-                              "workflows": [{"t": 0, "prog": p}], "schedule": sch})
+                # the runner drops / still references / re-runs the invocation object of the first attempt; the first
+                # attempt ends by a retry or by the death of its runner (recovery re-run in the same image)
+                for objs, end in (("fresh", "retry"), ("kept", "retry"), ("same", "retry"), ("kept", "crash")):
+                    sch = [["B", 0, 0, 1]] + [["O", 0]] * cut + [["E", 0, end]] + [["B", 1, 0, 1]] + [["O", 1]] * n + [["E", 1, "ok"]]
+                    cases.append({"backend": backend, "pattern": "enum_retry", "mode": "inline" if objs != "kept" or end == "crash" else "threads",
+                                  "objs": objs, "workflows": [{"t": 0, "prog": p}], "schedule": sch})
             # two workflows, same body, same image, sequential
             sch = [["B", 0, 0, 1]] + [["O", 0]] * n + [["E", 0, "ok"]] + [["B", 1, 0, 2]] + [["O", 1]] * n + [["E", 1, "ok"]]
             cases.append({"backend": backend, "pattern": "enum_two_seq", "mode": "inline",
@@ -406,6 +415,10 @@ def enumerate_small(backend: str, maxlen: int) -> list[dict]:
 
 
 # =========================================================================== implementation driver
+class EarlyEnd(Exception):
+    """An execution ended (raised) although the schedule still has events for it: an implementation failure."""
+
+
 class _Handle:
     def __init__(self, e, w, p):
         self.e, self.w, self.p = e, w, p
@@ -506,6 +519,69 @@ class Director:
         return glob
 
 
+class ProcState:
+    """The mutable module-level and class-level containers of pynenc.workflow.* are state of ONE OS process.
+    The harness runs many histories, and several process images per history, in one interpreter: this keeps one
+    copy of those containers per process image (swapped in before code of that image runs) and starts every
+    history from the contents they had when first seen, so that what leaks through such a container is exactly
+    what would leak inside one real process."""
+
+    def __init__(self):
+        import collections
+        import sys
+        import weakref
+        kinds = (dict, list, set, collections.deque, weakref.WeakKeyDictionary, weakref.WeakValueDictionary, weakref.WeakSet)
+        self.slots: list[tuple[str, object]] = []
+        seen: set[int] = set()
+        for modname, mod in sorted(sys.modules.items()):
+            if not modname.startswith("pynenc.workflow") or mod is None:
+                continue
+            owners = [(modname, mod)] + [(f"{modname}.{n}", v) for n, v in vars(mod).items()
+                                          if isinstance(v, type) and getattr(v, "__module__", None) == modname]
+            for oname, owner in owners:
+                for n, v in list(vars(owner).items()):
+                    if n.startswith("__") or not isinstance(v, kinds) or id(v) in seen:
+                        continue
+                    seen.add(id(v))
+                    self.slots.append((f"{oname}.{n}", v))
+        self.pristine = [self._get(c) for _, c in self.slots]
+        self.saved: dict[int, list] = {}
+        self.active: int | None = None
+
+    @staticmethod
+    def _get(c):
+        return list(c.items()) if hasattr(c, "items") else list(c)
+
+    @staticmethod
+    def _put(c, content):
+        c.clear()
+        if hasattr(c, "items"):
+            c.update(content)
+        elif hasattr(c, "extend"):
+            c.extend(content)
+        else:
+            for x in content:
+                c.add(x)
+
+    def activate(self, p: int) -> None:
+        if not self.slots or p == self.active:
+            return
+        if self.active is not None:
+            self.saved[self.active] = [self._get(c) for _, c in self.slots]
+        for (_, c), content in zip(self.slots, self.saved.pop(p, self.pristine)):
+            self._put(c, content)
+        self.active = p
+
+    def reset(self) -> None:
+        for (_, c), content in zip(self.slots, self.pristine):
+            self._put(c, content)
+        self.saved.clear()
+        self.active = None
+
+    def names(self) -> list[str]:
+        return [n for n, _ in self.slots]
+
+
 class FakeClock:
     """datetime shim for pynenc.workflow.workflow_deterministic: the k-th now() is EPOCH + k days."""
 
@@ -548,6 +624,15 @@ def run_impl(case: dict, scratch: str, tag: str) -> dict:
     if traced and case["mode"] != "threads":
         raise CheckError("pre-emption needs thread mode")
     child_log: list = []
+    # what the runner of an image does with the invocation object of an attempt: "fresh" = a new object per
+    # attempt, the old one is dropped; "kept" = a new object per attempt while the runner still references the
+    # old ones (ThreadRunner keeps (thread, invocation) until the next slot reclaim); "same" = the runner re-runs
+    # the object it already holds
+    objs_mode = case.get("objs", "fresh")
+    kept_objs: list = []
+    same_objs: dict = {}
+    proc = ProcState()
+    proc.reset()
 
     def image(p: int):
         if backend == "mem":
@@ -573,6 +658,7 @@ def run_impl(case: dict, scratch: str, tag: str) -> dict:
     threads: dict[int, threading.Thread] = {}
     try:
         app0 = image(0)
+        proc.activate(0)
         wf_ids = {}
         for i, w in enumerate(case["workflows"]):
             inv = tasks[0][w["t"]](w["prog"], f"w{i + 1}")
@@ -588,7 +674,14 @@ def run_impl(case: dict, scratch: str, tag: str) -> dict:
                 app.orchestrator.set_invocation_status(inv_id, S.RUNNING_RECOVERY, rc)
                 app.orchestrator.set_invocation_status(inv_id, S.REROUTED, rc)
             app.orchestrator.set_invocation_status(inv_id, S.PENDING, rc)
-            inv = app.state_backend.get_invocation(inv_id)      # what a runner gets: a fresh invocation object
+            proc.activate(pp)
+            if objs_mode == "same" and (pp, inv_id) in same_objs:
+                inv = same_objs[(pp, inv_id)]
+            else:
+                inv = app.state_backend.get_invocation(inv_id)      # what a runner gets: a fresh invocation object
+            same_objs[(pp, inv_id)] = inv if objs_mode == "same" else None
+            if objs_mode == "kept":
+                kept_objs.append(inv)
             h = _Handle(e, w, pp)
             handles[e] = h
             director.pending[(pp, inv_id)] = h
@@ -626,6 +719,7 @@ def run_impl(case: dict, scratch: str, tag: str) -> dict:
                 child_log.append([w, c, how, "not-launched"])
                 return
             app = image(0)
+            proc.activate(0)
             rc = world.runner_ctx("runner-0")
             orch = app.orchestrator
             st = orch.get_invocation_status(cid)
@@ -655,7 +749,8 @@ def run_impl(case: dict, scratch: str, tag: str) -> dict:
 
         def baton(h, cmd):
             if h.finished:
-                raise CheckError(f"execution {h.e} finished early: {h.error}")
+                raise EarlyEnd(f"execution {h.e} ended before the schedule ends it: {h.error}")
+            proc.activate(h.p)
             h.cmd = cmd
             h.go.set()
             if not h.done.wait(timeout=120):
@@ -699,7 +794,7 @@ def run_impl(case: dict, scratch: str, tag: str) -> dict:
             call_ids[str(c.call_id)] = n
         statuses = {w: app0.orchestrator.get_invocation_status(wid).name for w, wid in wf_ids.items()}
         return {"wf_ids": wf_ids, "log": list(director.log), "stores": stores, "children": children,
-                "child_runs": child_log, "line_counts": {e: h.line_counts for e, h in handles.items() if h.line_counts},
+                "process_containers": proc.names(), "child_runs": child_log, "line_counts": {e: h.line_counts for e, h in handles.items() if h.line_counts},
                 "call_ids": call_ids, "errors": errors, "clock_patched": patched, "statuses": statuses,
                 "task_objs": {e: h.task_obj for e, h in handles.items()},
                 "seen_wf": {e: h.seen_wf for e, h in handles.items()}}
@@ -708,6 +803,8 @@ def run_impl(case: dict, scratch: str, tag: str) -> dict:
         if patched:
             wd.datetime = old_dt
         director.abort = True
+        proc.reset()
+        kept_objs.clear()
         for h in handles.values():          # release any thread still parked (harness failure paths)
             h.cmd = "crash"
             h.go.set()
@@ -1024,7 +1121,7 @@ def evaluate(ctx: Ctx, cases: list[dict], scratch: str) -> None:
                 exprs.append(f"render (run (with_scope gen_cfg PerExecution) {evs})")
     vals = ctx.coq_eval(IMPORTS, exprs, chunk=120)
     stats = {"cases": 0, "executions": 0, "operations": 0, "by_pattern": {}, "by_mode": {}, "by_backend": {},
-             "by_sharing": {}, "impl_violations_by_kind": {}, "model_mismatches": 0, "op_kinds": {"r": 0, "t": 0, "u": 0, "x": 0},
+             "by_sharing": {}, "by_objs": {}, "impl_violations_by_kind": {}, "model_mismatches": 0, "op_kinds": {"r": 0, "t": 0, "u": 0, "x": 0},
              "attempt_endings": {"ok": 0, "retry": 0, "crash": 0}}
     distinct = set()
     mism_gen: list = []
@@ -1032,11 +1129,33 @@ def evaluate(ctx: Ctx, cases: list[dict], scratch: str) -> None:
     stats["child_runs"] = {}
     stats["preempted_calls"] = {"parked_inside_call": 0, "call_ended_before_line": 0}
     stats["linearisation_used"] = {}
+    stats["not_executable"] = 0
     for i, case in enumerate(cases):
-        raw = run_impl(case, scratch, f"{i}")
-        if raw["errors"]:
-            raise CheckError(f"case {i}: harness/implementation error {raw['errors']} in {json.dumps(case)}")
-        obs = decode(case, raw)
+        # Anything the implementation does that the harness does not expect (an exception out of a helper call or
+        # out of the orchestrator for an id the history produced, an execution that ends on its own, observations
+        # that cannot be read back) is a failing input on the real code, never a harness error: on the unchanged
+        # tree every generated history executes.  Only baton / build timeouts (CheckError) stay harness errors.
+        try:
+            raw = run_impl(case, scratch, f"{i}")
+            if raw["errors"]:
+                raise EarlyEnd("; ".join(raw["errors"]))
+            obs = decode(case, raw)
+            oracle(case, obs)
+        except CheckError:
+            raise
+        except Exception as ex:  # noqa: BLE001
+            import traceback
+            tb = traceback.format_exc().strip().split("\n")
+            where = next((ln.strip() for ln in reversed(tb) if ln.strip().startswith("File ") and "/pynenc/" in ln), tb[-2].strip() if len(tb) > 1 else "")
+            stats["not_executable"] += 1
+            stats["cases"] += 1
+            ctx.violation(f"history-fails:{type(ex).__name__}:{case['backend']}",
+                          f"[{case['backend']}, {case['pattern']}, {case['mode']}, objects {case.get('objs', 'fresh')}] the history "
+                          f"{compact_schedule(case['schedule'])} of workflows {case['workflows']} cannot be executed / read back on "
+                          f"this tree: {type(ex).__name__}: {ex} ({where}) - a helper call, a sub-invocation handed to a workflow or a "
+                          "record is not what every execution of this history on the unchanged code produces",
+                          {"case": case, "exception": tb[-12:]})
+            continue
         # the model under every linearisation of the pre-empted calls; the reference is the first one that
         # explains the implementation (variant 0 = every call takes effect where it completes)
         pre = has_preemption(case)
@@ -1065,7 +1184,7 @@ def evaluate(ctx: Ctx, cases: list[dict], scratch: str) -> None:
         stats["executions"] += n_exec
         stats["operations"] += n_ops
         for k, v in (("by_pattern", case["pattern"]), ("by_mode", case["mode"]), ("by_backend", case["backend"]),
-                     ("by_sharing", shared_task_objects(case))):
+                     ("by_sharing", shared_task_objects(case)), ("by_objs", case.get("objs", "fresh"))):
             stats[k][v] = stats[k].get(v, 0) + 1
         for _, o, _v in raw["log"]:
             stats["op_kinds"][o[0]] += 1
@@ -1073,7 +1192,7 @@ def evaluate(ctx: Ctx, cases: list[dict], scratch: str) -> None:
             if ev[0] == "E":
                 stats["attempt_endings"][ev[2]] += 1
         if n_exec > 1 or n_ops > 1:
-            distinct.add(json.dumps([case["workflows"], case["schedule"], case["backend"], case["mode"]]))
+            distinct.add(json.dumps([case["workflows"], case["schedule"], case["backend"], case["mode"], case.get("objs", "fresh")]))
         mm = judge(ctx, case, obs, m_gen, m_fix, stats, cmp_obs)
         mism_gen += [mm[0]] if mm[0] else []
         mism_fix += [mm[1]] if mm[1] else []
@@ -1131,7 +1250,8 @@ def judge(ctx: Ctx, case: dict, obs: dict, m_gen: dict, m_fix: dict, stats: dict
                     f" [{case['backend']}] e.g. {text}")
         else:
             key = f"{kind}:{case['backend']}"
-            what = f"[{case['backend']}, {case['pattern']}, {case['mode']}] {text}{pre_note}"
+            what = (f"[{case['backend']}, {case['pattern']}, {case['mode']}, invocation objects of earlier attempts "
+                    f"{case.get('objs', 'fresh')}] {text}{pre_note}")
         ctx.violation(key, what, {**replay, "violation": [kind, text], "observed": obs["outs"]})
     out = []
     cobs = cmp_obs or obs
@@ -1259,9 +1379,20 @@ def replay(ctx: Ctx, path: str) -> int:
     case = rp["case"]
     scratch = world.scratch_dir()
     try:
-        raw = run_impl(case, scratch, "replay")
-        obs = decode(case, raw)
-        print("history:", compact_schedule(case["schedule"]), "| workflows:", case["workflows"], "|", case["backend"], case["mode"])
+        print("history:", compact_schedule(case["schedule"]), "| workflows:", case["workflows"], "|", case["backend"], case["mode"],
+              "| invocation objects of earlier attempts:", case.get("objs", "fresh"))
+        try:
+            raw = run_impl(case, scratch, "replay")
+            if raw["errors"]:
+                raise EarlyEnd("; ".join(raw["errors"]))
+            obs = decode(case, raw)
+        except CheckError:
+            raise
+        except Exception as ex:  # noqa: BLE001
+            import traceback
+            traceback.print_exc()
+            print(f"PROPERTY VIOLATED: history-fails - the history cannot be executed / read back: {type(ex).__name__}: {ex}")
+            return 0
         print("workflow ids:", raw["wf_ids"])
         for e, o, v in raw["log"]:
             print(f"  execution {e} {o} -> {v}")
